@@ -20,6 +20,9 @@
       is no longer trusted
     * `gen_codes_multiply` : for every configured code and every exact amount whose printed text reads back as itself,
       `executeCode "." "" code v = some (v * mult code)`
+    * `basicExecute_render`, `lexLine_render` : C02 at string level through the real entry point — `basic_execute` with the text's
+      length as fuel returns the textbook value of ANY tree on ANY admissible spacing of its pieces (`SCP.Lex.tree_line_eval` was
+      stated for the exact step count); a trailing comment changes nothing
     * `readsBack_rat`, `litOK_of_text` : the hypothesis in the decidable form the driver evaluates (`SC.readsBackB`)
 
   What stays a hypothesis: that the amount's printed text reads back as the amount (`f64::to_string` / `str::parse`
@@ -406,5 +409,55 @@ example : executeCode "." "" "{value} * 25.4" (-5 / 2 : Rat) = some (-127 / 2) :
 example : executeCode "." "" "{value} / 28349.5231" (283495231 / 100 : Rat) = some 100 := by decide +kernel
 /-- and an amount that does NOT satisfy it (a third has no finite decimal text) -/
 example : readsBackB "." "" (1 / 3 : Rat) = false := by decide +kernel
+
+/-! ### every rendering of every tree, through `basic_execute` with its real fuel -/
+
+theorem pieceOK_text_ne_nil (dec thou : String) (p : Piece F) (h : PieceOK dec thou p) : 1 ≤ p.text.length := by
+  cases p with
+  | lit txt v => exact litOK_ne_nil dec thou txt v h
+  | op c => simp [Piece.text]
+
+/-- the exact number of scanner steps of a line never exceeds the fuel `basic_execute` runs with -/
+theorem fuelFor_le (dec thou : String) (ps : List (Nat × Piece F)) (t : Nat) (hok : ∀ gp ∈ ps, PieceOK dec thou gp.2) :
+    fuelFor ps t ≤ (render ps t).length + 1 := by
+  induction ps with
+  | nil => simp [fuelFor, render]
+  | cons gp rest ih =>
+    obtain ⟨g, p⟩ := gp
+    have h1 := pieceOK_text_ne_nil dec thou p (hok (g, p) (by simp))
+    have h2 := ih (fun x hx => hok x (by simp [hx]))
+    simp only [fuelFor, render, List.length_append, List.length_replicate]
+    omega
+
+/-- C02 AT STRING LEVEL THROUGH THE REAL ENTRY POINT: `basic_execute` — tokenizer with the text's length as fuel, parser,
+    interpreter — on ANY spacing of the pieces of ANY expression tree returns the tree's textbook value -/
+theorem basicExecute_render (dec thou : String) (s : Sum F) (ps : List (Nat × Piece F)) (t : Nat)
+    (htoks : ps.map (·.2.tok) = s.toks) (hok : ∀ gp ∈ ps, PieceOK dec thou gp.2) (hsep : Separated ps t) (hne : s.toks ≠ []) :
+    basicExecute dec thou (render ps t) = some s.value := by
+  apply basicExecute_tree dec thou (render ps t) s _ hne
+  have h := lex_render (F := F) dec thou ps t hok hsep
+  have hle := fuelFor_le dec thou ps t hok
+  have : (render ps t).length + 1 = fuelFor ps t + ((render ps t).length + 1 - fuelFor ps t) := by omega
+  rw [this, codeLex_mono dec thou _ _ _ h, htoks]
+
+/-- the same for whole lines with a trailing comment (`lexLine`): whatever follows the first '#' is irrelevant -/
+theorem lexLine_render (dec thou : String) (ps : List (Nat × Piece F)) (t : Nat) (c : List Char)
+    (hok : ∀ gp ∈ ps, PieceOK dec thou gp.2) (hsep : Separated ps t) (hno : '#' ∉ render ps t) :
+    (lexLine dec thou (render ps t ++ '#' :: c) : Option (List (Tok F))) = some (ps.map (·.2.tok)) := by
+  rw [(comment_irrelevant (F := F) dec thou (render ps t) c [] hno).2]
+  unfold lexLine
+  have hp : ∀ a ∈ render ps t, (decide (a ≠ '#')) = true := by
+    intro a ha; simp only [decide_eq_true_eq]; intro e; exact hno (e ▸ ha)
+  have h2 : (render ps t).takeWhile (· ≠ '#') = render ps t := by
+    have := List.takeWhile_append_of_pos (p := fun x => decide (x ≠ '#')) (l₁ := render ps t) (l₂ := []) hp
+    simpa using this
+  simp only [h2]
+  have h := lex_render (F := F) dec thou ps t hok hsep
+  have hle := fuelFor_le dec thou ps t hok
+  have : (render ps t).length + 1 = fuelFor ps t + ((render ps t).length + 1 - fuelFor ps t) := by omega
+  rw [this, codeLex_mono dec thou _ _ _ h]
+
+/-- non-vacuity: a line with uneven gaps, a parenthesis and a sign glued to a literal -/
+example : basicExecute "," "." "12 *( 3,5+-4)".toList = some (-6 : Rat) := by decide +kernel
 
 end SCP.C12Exec
